@@ -180,8 +180,8 @@ func ruleExclusionAtReadSites(r *Report, rule string) {
 			}
 			return true
 		})
-		loops := rangesOverField(info, fi.Decl.Body, "IndexSnapshot", "segment")
-		r.Ob(rule, fi.Name+"/sums-live-root-counts", fi.Decl.Pos(), ok && len(loops) == 1, "DocCount is the sum over all segments of the live root-document count")
+		loops := loopsOverField(info, fi.Decl.Body, "IndexSnapshot", "segment") // range or index form
+		r.Ob(rule, fi.Name+"/sums-live-root-counts", fi.Decl.Pos(), ok && loops == 1, "DocCount is the sum over all segments of the live root-document count")
 	}
 }
 
@@ -294,7 +294,27 @@ func ruleBatchIdsForwarded(r *Report) {
 				return true
 			}
 			ix, isIx := ast.Unparen(as.Lhs[0]).(*ast.IndexExpr)
-			if !isIx || !isField(pinfo, ix.X, "segmentIntroduction", "obsoletes") {
+			if !isIx {
+				return true
+			}
+			// the map written is the introduction's obsoletes, or a local map that is stored into it
+			isObs := isField(pinfo, ix.X, "segmentIntroduction", "obsoletes")
+			if lm := objOf(pinfo, ix.X); lm != nil && !isObs {
+				for _, st := range storesToField(pinfo, ps.Decl.Body, "segmentIntroduction", "obsoletes") {
+					if st.Rhs != nil && objOf(pinfo, st.Rhs) == lm {
+						isObs = true
+					}
+				}
+				ast.Inspect(ps.Decl.Body, func(m ast.Node) bool {
+					if kv, ok := m.(*ast.KeyValueExpr); ok {
+						if id, ok := kv.Key.(*ast.Ident); ok && id.Name == "obsoletes" && objOf(pinfo, kv.Value) == lm {
+							isObs = true
+						}
+					}
+					return true
+				})
+			}
+			if !isObs {
 				return true
 			}
 			if !isField(pinfo, ix.Index, "SegmentSnapshot", "id") || objOf(pinfo, ast.Unparen(ix.Index).(*ast.SelectorExpr).X) != objOf(pinfo, rs.Value) {
@@ -304,7 +324,7 @@ func ruleBatchIdsForwarded(r *Report) {
 			if sliceHasSuffix(sl, ".DocNumbers") && sl[varKeyOf(idsParam)] {
 				// only error-exit guards allowed
 				extra := false
-				for _, f := range pg.GuardsOf(as) {
+				for _, f := range pg.RawGuardsOf(as) {
 					if _, isNil, isErr := errNilFact(pinfo, f); !(isErr && isNil) {
 						extra = true
 					}
